@@ -8,7 +8,9 @@ C16, clause by clause, for BOTH entry routes.
 * `text`    — text through `parse_kip` (any grammar: the `nom` grammar is quantified over, the step
               order "grammar, then `validate_command(&command)?`, then `Ok(command)`" is regenerated
               from `parser.rs`);
-* `kmlText` — text through `parse_kml` (`kml::validate_plan(&statement)?`).
+* `kmlText` — text through `parse_kml` (`kml::validate_plan(&statement)?`);
+* `operation` — an `Operation` of a request through `Operation::parse` (request.rs): `command` text
+              goes to `parse_kip`, a pre-parsed `ast` to `validate_command(ast)?` before `ast.clone()`.
 
 Every clause of the property text is its own theorem below, over the constant tables *generated*
 from the source (`Gen/KipGuardTables`).
@@ -23,6 +25,8 @@ inductive Accepted : Command → Prop where
       parseKip grammar input = .ok cmd → Accepted cmd
   | kmlText {ι : Type} (grammar : ι → Option Plan) (input : ι) {cmd : Command} :
       parseKml grammar input = .ok cmd → Accepted cmd
+  | operation {ι : Type} (grammar : ι → Option Command) (op : OperationSrc ι) {cmd : Command} :
+      operationParse grammar op = .ok cmd → Accepted cmd
 
 /-- Whatever either route lets through has passed the tree validator. -/
 theorem accepted_is_validated {cmd : Command} (h : Accepted cmd) : validateCommand cmd = .ok () := by
@@ -32,6 +36,7 @@ theorem accepted_is_validated {cmd : Command} (h : Accepted cmd) : validateComma
   | kmlText g i h =>
     obtain ⟨st, _, rfl, hv⟩ := parseKml_validated g i _ h
     exact hv
+  | operation g op h => exact operationParse_validated g op _ h
 
 /-- … and is therefore `Safe`. -/
 theorem accepted_plan_is_safe {st : Plan} (h : Accepted (.kml st)) : Safe st :=
@@ -42,7 +47,8 @@ theorem entry_dispatch_matches_model :
     KipGuardTables.validateCommandArms =
       [("Kml", "validate_plan"), ("Meta::ExportCapsule", "nonempty+validate_exact_patterns")] ∧
     KipGuardTables.parseKipOrder = ["budget", "grammar", "validate_command", "return"] ∧
-    KipGuardTables.parseKmlOrder = ["budget", "grammar", "validate_plan", "return"] := by
+    KipGuardTables.parseKmlOrder = ["budget", "grammar", "validate_plan", "return"] ∧
+    KipGuardTables.operationAstOrder = ["validate_command", "return"] := by
   decide
 
 /-! ### "assigns an engine-owned field (system, governance, space identity and sequence)" -/
@@ -214,6 +220,9 @@ example : parseKip idGrammar (.kml (oneClause (attrs [("governance", .value (str
     .error (.guard (.protectedKey "governance")) := by rfl
 example : parseKml (fun p : Plan => some p) { clauses := [] } = .error (.guard .emptyPlan) := by rfl
 example : parseKip (fun _ : Unit => none) () = .error .grammar := by rfl
+example : operationParse idGrammar (.ast (.kml demoPlan)) = .ok (.kml demoPlan) := by rfl
+example : operationParse idGrammar (.ast (.exportCapsule (.cons (.beliefSlot "b" (.vari "s") (.literal "likes")) .nil))) =
+    .error (.guard .belief) := by rfl
 example : lowerEnsure (some "p") (.tuple (.param "s") (.atom (.literal "likes")) (.param "o")) true =
     .ok (.ensureProposition { handle := some "p", subject := .param "s", predicate := .literal "likes", object := .param "o", expectVersion := true }) := rfl
 example : lowerEnsure none (.tuple (.param "s") (.atom (.vari "v")) (.param "o")) false = .error .predVariable := rfl
